@@ -237,8 +237,10 @@ class GFunction:
             if required_curves > len(height_values):
                 kind = curves_by_kind[len(height_values)]
 
-        # if the interpolation table is not yet know, build it
-        if len(self.interpolation_table) == 0:
+        # if the interpolation table is not yet known, or was built for another interpolation kind or without
+        # (with) extrapolation while this request needs (does not need) it, build it
+        if self.interpolation_table.get("built_for") != (kind, fill_value):
+            self.interpolation_table["built_for"] = (kind, fill_value)
             # create an interpolation for the g-function which takes the height
             # (or equivalent height) as an input the g-function needs to be
             # interpolated at each point in dimensionless time
